@@ -1,7 +1,8 @@
 /-
   Model.Wire — transaction / block wire format of lib/btc (tx.go, funcs.go, block.go). Core-only,
   self-contained (imports GocoinV.Base.* only). Mirrors the code AS FIXED by the /repo commits
-  "fix: wire decoders refuse non-canonical CompactSize, …" and "fix: NewBlock returns an error …".
+  5f0d89be "fix: wire decoders refuse non-canonical CompactSize, …", 39cf1587 "fix: NewBlock returns an error …"
+  and b2c711ed "fix: NewTx never reads past the length of its buffer".
 
   ## Public API (stable; C02 / C04 / C18 import this file)
 
